@@ -192,4 +192,33 @@ theorem lucnum2_ui_spec (n : ℕ) :
     rw [e2]; congr 1; omega
 example : mpz_lucnum2_ui 0 = (2, -1) ∧ mpz_lucnum2_ui 100 = (792070839848372253127, 489526700523968661124) := by decide +kernel
 
+/-! ## Primality: a prime is never reported composite -/
+
+/-- One Miller–Rabin round (`mill_rab` of mpz/miller_rabin.c: y = x^q mod n, accept on 1 or n-1, then
+    up to k-1 squarings accepting on n-1 and rejecting on 1) accepts EVERY base x not divisible by p
+    when p is prime and p - 1 = 2^k q.  (Fermat + "only ±1 square to 1 modulo a prime".) -/
+theorem strong_prp_prime (p : ℕ) (hp : p.Prime) (x q k : ℕ) (hqk : p - 1 = 2 ^ k * q) (hx : ¬ p ∣ x) :
+    mill_rab p x q k = true :=
+  mill_rab_prime p hp x q k hqk hx
+example : mill_rab 97 5 3 5 = true ∧ (97 - 1 = 2 ^ 5 * 3) ∧ mill_rab 561 2 35 4 = false := by decide +kernel
+
+/-- mpz_miller_rabin (guard for n ≤ 7, Fermat test to base 210, `reps` rounds) returns 1 for every prime,
+    whatever bases 2 ≤ x ≤ n-2 the random generator produces: "never returns 0 for a prime". -/
+theorem miller_rabin_never_rejects_prime (p : ℕ) (hp : p.Prime) (bases : List ℕ)
+    (hb : ∀ x ∈ bases, 2 ≤ x ∧ x ≤ p - 2) : miller_rabin_with p bases = true := by
+  apply miller_rabin_with_prime p hp
+  intro x hx hd
+  obtain ⟨h1, h2⟩ := hb x hx
+  have := Nat.le_of_dvd (by omega) hd
+  have := hp.two_le
+  omega
+example : miller_rabin_with 1000003 [2, 3, 999999, 1000001] = true ∧ miller_rabin_with 7 [] = true ∧
+    miller_rabin_with 1729 [2] = false := by decide +kernel
+
+/-- the spec oracle `isPrime` used by the predicate ops answers `true` on every prime, i.e.
+    `isPrime n = false` proves that n is composite.  (The converse below 2^64 is the published
+    12-base result, see the trusted base.) -/
+theorem isPrime_complete (p : ℕ) (hp : p.Prime) : isPrime p = true := isPrime_of_prime p hp
+example : isPrime 18446744073709551557 = true ∧ isPrime 3825123056546413051 = false := by decide +kernel
+
 end Mpir.Numth
